@@ -12,7 +12,7 @@ CONFIG = {
              'build (result, tree, every function invoked); real clean steps are part of the '
              'histories too; evaluations = clean calls judged; distinct_nontrivial = distinct '
              '(program shape, step kinds before the clean)'),
-    'gates': ['clean_probes', 'clean_after_rollback', 'clean_twice', 'build_after_clean',
+    'gates': ['cache_dir_cleans', 'clean_probes', 'clean_after_rollback', 'clean_twice', 'build_after_clean',
               'ev:os.rmdir|clean', 'ev:os.remove|clean'],
 }
 
@@ -77,7 +77,58 @@ def probe(sh, w, program, sr, ctx):
     return False
 
 
+def cache_dir_cases(sh):
+    """the cache file lives in a directory the build itself creates and shares with outputs:
+    all sequences of up to three builds over five roots (output below the cache directory
+    succeeds / fails / is absent / a sibling succeeds while it fails / outputs elsewhere),
+    clean probed on a copy after every build"""
+    import itertools
+    from ..env import Scratch
+    from ..world import World
+    funcs = {'Fok': {'kind': 'bf', 'idx': 1, 'body': [['write', 'ok']]},
+             'Fbad': {'kind': 'bf', 'idx': 2, 'body': [['write', 'bad'], ['raise', 'Fbad']]}}
+    roots = {
+        'A': [['bf', 'out/gen/a', 'Fok', {'catch': True}]],
+        'B': [['bf', 'out/gen/a', 'Fbad', {'catch': True}]],
+        'C': [],
+        'D': [['bf', 'out/x', 'Fok', {'catch': True}], ['bf', 'out/gen/a', 'Fbad', {'catch': True}]],
+        'E': [['bf', 'other/y', 'Fok', {'catch': True}]],
+    }
+    names = sorted(roots)
+    program = {'funcs': funcs, 'roots': [roots[n] for n in names]}
+    seqs = [s for n in (1, 2, 3) for s in itertools.product(range(len(names)), repeat=n)]
+    for seq in seqs[sh.idx::sh.n]:
+        if sh.time_left() <= 0:
+            return
+        with Scratch('q') as sc:
+            w = World(sc, 'out/cache.gz')
+            ok = True
+            for ri in seq:
+                sr = w.build(program, program['roots'][ri], {}, label=ri)
+                sh.evaluations += 1
+                sh.count('cache_dir_builds')
+                for d in sr.divs:
+                    if d['kind'] in ('tree', 'result', 'rollback_tree'):
+                        sh.violation(signature(d) + '|cache-in-created-dir', detail(d), case_of(w, program))
+                        ok = False
+                if not ok or sr.divs:
+                    ok = False
+                    break
+                tok = w.save()
+                c = w.clean(build_name=None if ri == 2 else '__same__')
+                sh.count('cache_dir_cleans')
+                sh.nt(('cache-dir', tuple(names[i] for i in seq[:seq.index(ri) + 1])))
+                for d in c.divs:
+                    if d['kind'] in KINDS:
+                        sh.violation(signature(d) + '|cache-in-created-dir', detail(d), case_of(w, program))
+                        ok = False
+                w.restore(tok)
+                if not ok:
+                    break
+
+
 def run_shard(sh):
+    cache_dir_cases(sh)
     from .swapcases import run_swap_cases
     run_swap_cases(sh, lambda d: d['kind'] in KINDS and d.get('phase', 'clean') == 'clean', 'C12',
                    nested_cache=sh.idx % 2 == 1)
